@@ -85,6 +85,9 @@ pub struct CaseOut {
     pub stim: Option<Stimulus>,
     pub rtl_varies: bool,
     pub cfgs: Vec<ConfigOut>,
+    /// other simulator engines (no FF optimisation / JIT / 4-state) do not reproduce the reference
+    /// trace up to the first mismatching cycle: the RTL side is not trustworthy for this design
+    pub rtl_engines_disagree: Option<String>,
 }
 
 pub fn netlist_info(m: &GateModule) -> NetlistInfo {
@@ -250,7 +253,7 @@ pub fn run_case(seed: u64, i: u64, o: &Opts) -> CaseOut {
 }
 
 pub fn run_prepared(seed: u64, i: u64, case: Case, o: &Opts) -> CaseOut {
-    let mut out = CaseOut { i, kind: case.kind.clone(), status: String::new(), design: None, stim: None, rtl_varies: false, cfgs: vec![] };
+    let mut out = CaseOut { i, kind: case.kind.clone(), status: String::new(), design: None, stim: None, rtl_varies: false, cfgs: vec![], rtl_engines_disagree: None };
     let d = case.design.clone();
     let md = default_metadata();
     let a = match analyze_one(&d.text, &md) {
@@ -270,7 +273,14 @@ pub fn run_prepared(seed: u64, i: u64, case: Case, o: &Opts) -> CaseOut {
     let mut rng = Rng::for_case(seed, "C19-stim", i);
     let stim = stimulus(&d, &mut rng, o.cycles);
     let rtl = if o.do_eval {
-        match vgen::sim::run(&a.ir, &d, &Config::default(), &stim) {
+        let mut cfg = Config::default();
+        match std::env::var("PROBE_SIMCFG").as_deref() {
+            Ok("noffopt") => cfg.disable_ff_opt = true,
+            Ok("jit") => cfg.use_jit = true,
+            Ok("4state") => cfg.use_4state = true,
+            _ => {}
+        }
+        match vgen::sim::run(&a.ir, &d, &cfg, &stim) {
             Ok(t) => Some(t),
             Err(e) => {
                 out.status = format!("sim_build_error: {}", e.lines().next().unwrap_or(""));
@@ -312,6 +322,33 @@ pub fn run_prepared(seed: u64, i: u64, case: Case, o: &Opts) -> CaseOut {
             }
             co.secs = t0.elapsed().as_secs_f64();
             out.cfgs.push(co);
+        }
+    }
+    // A mismatch is only C19's to judge when the RTL reference is stable across the simulator's own
+    // engines; where they disagree among themselves (C02/C03's subject) the case is counted, not judged.
+    let first_bad = out.cfgs.iter().filter_map(|c| c.eval.as_ref().and_then(|e| e.as_ref().ok()).and_then(|g| g.mismatch.as_ref()).map(|m| m.cycle)).max();
+    if let (Some(upto), Some(reference)) = (first_bad, &rtl) {
+        for (name, cfg) in [
+            ("disable_ff_opt", Config { disable_ff_opt: true, ..Default::default() }),
+            ("jit", Config { use_jit: true, ..Default::default() }),
+            ("4state", Config { use_4state: true, ..Default::default() }),
+        ] {
+            if let Ok(t) = vgen::sim::run(&a.ir, &d, &cfg, &stim) {
+                'cmp: for c in 0..=upto.min(t.steps.len().saturating_sub(1)) {
+                    for (x, y) in t.steps[c].iter().zip(reference.steps[c].iter()) {
+                        for w in 0..x.payload.len() {
+                            let known = !x.xz[w] & !y.xz[w];
+                            if (x.payload[w] ^ y.payload[w]) & known != 0 {
+                                out.rtl_engines_disagree = Some(format!("engine {name} differs from the reference interpreter at cycle {c}"));
+                                break 'cmp;
+                            }
+                        }
+                    }
+                }
+            }
+            if out.rtl_engines_disagree.is_some() {
+                break;
+            }
         }
     }
     out.design = Some(d);
